@@ -102,6 +102,7 @@ inductive Tx
   | stake (k : Nat) (v : Int)                         -- ExchangeVotes (environment)
   | vote (k : Nat) (lock : Nat) (vs : List Int) (bad : Option Nat)  -- Voting, DPoS v2 content
   | retv (k : Nat) (v : Int)                          -- ReturnVotes
+  | renew (k : Nat) (oldLock : Nat) (amount : Int) (newLock born : Nat)  -- Voting, renewal content (one vote)
   deriving DecidableEq, Repr
 
 def sumI : List Int → Int
@@ -144,11 +145,18 @@ def check (P : Params) (h : Nat) (s0 : State) : Tx → Option String
       match voteLoop h lock P.minLock P.maxLock bad 0 vs with
       | some e => some e
       | none => if sumI vs > t.rights - t.used then some "notenough" else none
+  | .renew k oldLock amount newLock born =>
+    match get k s0.stakes with
+    | none => some "norights"
+    | some t =>
+      if (⟨oldLock, amount⟩ : Vote) ∉ t.live then some "novote"
+      else if newLock ≤ oldLock ∨ newLock - born > P.maxLock then some "lock"
+      else none
   | .retv k v =>
     if v ≤ P.retvFee then some "small" else
     match get k s0.stakes with
     | none => if v > 0 then some "notenough" else none
-    | some t => if v > t.rights - t.used then some "notenough" else none
+    | some t => if v > t.rights - t.used ∨ v > t.rights then some "notenough" else none   -- the other used-vote kinds are 0 here
 
 /-! ## state updates (`processTransaction`; queued closures) -/
 
@@ -180,6 +188,9 @@ def stakeStep : Tx → Stake → Stake
   | .stake _ v, t => { t with rights := t.rights + v }
   | .vote _ lock vs _, t => { t with used := t.used + sumI vs, live := t.live ++ vs.map (fun v => ⟨lock, v⟩) }
   | .retv _ v, t => { t with rights := t.rights - v }
+  | .renew _ oldLock amount newLock _, t =>
+    -- the closure deletes the old detailed vote (if still there) and stores the renewed one
+    { t with live := t.live.erase ⟨oldLock, amount⟩ ++ [⟨newLock, amount⟩] }
   | _, t => t
 
 def applyTx (P : Params) (h : Nat) (s0 s : State) (tx : Tx) : State :=
@@ -196,7 +207,7 @@ def applyTx (P : Params) (h : Nat) (s0 s : State) (tx : Tx) : State :=
     match get k s.stakes with
     | some _ => { s with stakes := upd k (stakeStep tx) s.stakes }
     | none => { s with stakes := (k, ⟨-v, 0, []⟩) :: s.stakes }   -- Go map default 0
-  | .vote k _ _ _ => { s with stakes := upd k (stakeStep tx) s.stakes }
+  | .vote k _ _ _ | .renew k _ _ _ _ => { s with stakes := upd k (stakeStep tx) s.stakes }
   | .dep o _ | .cancel o | .ret o _ _ _ _ | .pen o _ =>
     match get o s0.accts with
     | none => s                       -- producer unknown before the block: nothing is queued
